@@ -29,7 +29,7 @@ FIELDS = {  # attribute of self -> (coq field, type)
     'l_interpolator': ('l_interpolator', 'ocache'), 'p_interpolator': ('p_interpolator', 'ocache'),
 }
 COLS = {'pressure_key': 'col_p', 'loading_key': 'col_l'}
-U.COQ_TY.update({'iso': 'iso', 'col': 'list N', 'ocache': 'option cache', 'bool': 'bool'})
+U.COQ_TY.update({'iso': 'iso', 'col': 'list N', 'ocache': 'option (cache N)', 'bool': 'bool'})
 U.PARAM_TYPES.update({'self': 'iso', 'verbose': 'bool', 'pressure_mode': 'ostr', 'pressure_unit': 'ostr',
                       'loading_basis': 'ostr', 'loading_unit': 'ostr', 'material_basis': 'ostr', 'material_unit': 'ostr'})
 PURE = {'temperature'}          # translated in the plain result monad (they do not assign to self)
